@@ -346,6 +346,30 @@ def entries(pym, seed, thorough=False):
                 lambda si, so, kw=kw: pym.EigenSolve(si, so, hermitian=True, **kw), insx, nout=2,
                 dirs=(lambda r, withB=withB: [sdirs(r), 0.2 * sdirs(r)] if withB else [sdirs(r)]), tol=1e-4, h=1e-4)
         linsys_options()
+        shared_domain_options()
+
+    def shared_domain_options():
+        """several configurations of the same class on ONE domain object that differ in exactly one option (boundary
+        modes, kernel, radius, direction): anything cached on the domain / class under a key that forgets an option shows
+        when these instances live side by side (zoo_interactions.interleaved_check)"""
+        for shp in ((3, 4, 0), (3, 2, 3)):
+            d = pym.DomainDefinition(*shp, 1.0, 1.5, 0.5)
+            x = rnd(d.nel)
+            keys = ('xmin_bc', 'xmax_bc', 'ymin_bc', 'ymax_bc') + (('zmin_bc', 'zmax_bc') if shp[2] else ())
+            bsets = [{k: 'symmetric' for k in keys}, {k: ('edge', 'wrap', 0.0, 1.0, 'symmetric', 0.5)[i % 6] for i, k in enumerate(keys)},
+                     {k: (1.0, 'edge', 'wrap', 'symmetric', 0.0, 'edge')[i % 6] for i, k in enumerate(keys)}]
+            ksh = (3, 3) if not shp[2] else (3, 3, 3)
+            w = rng.random(ksh) + 0.1 * np.arange(np.prod(ksh)).reshape(ksh)
+            for j, bcs in enumerate(bsets):
+                add('FilterConv', dict(dom=shp, radius=1.6, shared_domain=True, **bcs),
+                    lambda si, so, d=d, bcs=bcs: pym.FilterConv(si, so, d, radius=1.6, **bcs), [x], linear=(j == 1))
+                add('FilterConv', dict(dom=shp, weights=ksh, shared_domain=True, **bcs),
+                    lambda si, so, d=d, bcs=bcs, w=w: pym.FilterConv(si, so, d, weights=w, **bcs), [x], linear=(j == 2))
+            npad = rng.choice(d.nel, size=max(1, d.nel // 3), replace=False)
+            for r, np_ in ((1.6, None), (1.6, npad), (2.4, None)):
+                add('DensityFilter', dict(dom=shp, radius=r, nonpadding=np_ is not None, shared_domain=True),
+                    lambda si, so, d=d, r=r, np_=np_: pym.DensityFilter(si, so, d, radius=r, nonpadding=np_), [x], linear=False)
+
 
     def linsys_options():
         """every public constructor option of the linear-system modules (LinSolve: use_lda_solver False/True, explicit
